@@ -17,7 +17,8 @@ import json
 import os
 
 from . import hirq as H
-from .appendchain import Chain
+from .chain2 import Chain2, method_of, norm as cnorm
+from . import sym as S
 from . import oblig_rules as OR
 from .pathcond import TooManyPaths
 from .engine import VERIF
@@ -27,36 +28,11 @@ LEVEL = "other"
 AD = "ctap2::AuthenticatorData::<'a, A, E>::serialize"
 ACD = "<ctap2::make_credential::AttestedCredentialData<'a> as ctap2::SerializeAttestedCredentialData>::serialize"
 NOACD = "<ctap2::get_assertion::NoAttestedCredentialData as ctap2::SerializeAttestedCredentialData>::serialize"
+ACD_TRAIT = "ctap2::SerializeAttestedCredentialData::serialize"
+CBOR_TO = "cbor_smol::cbor_serialize_to"
+U16_FROM_USIZE = ("core::convert::num::ptr_try_from_impls::<impl core::convert::TryFrom<usize> for u16>::try_from",)
 EXT = "heapless::vec::Vec::<T, N>::extend_from_slice"
 PUSH = "heapless::vec::Vec::<T, N>::push"
-
-
-def chain_common(ctx, cfg, c, key, who):
-    """who-may-call + propagation on all paths"""
-    seen = {}
-    for p in c.paths:
-        if p.loops:
-            ctx.oblige(key + "|no-loop", False, "%s appends inside a loop" % who, cfg=cfg, where=c.fn["sp"])
-        for e in p.effects:
-            seen[id(e)] = e
-    for e in seen.values():
-        m = c.method(e)
-        if m is not None:
-            ctx.oblige(key + "|append-only|" + m, e.get("callee") in (EXT, PUSH),
-                       "%s calls `%s` on the output buffer: not an append" % (who, e.get("callee")), cfg=cfg, where=H.line(e))
-        elif e.get("k") in ("assign", "assignop"):
-            ctx.oblige(key + "|append-only|assign", False, "%s overwrites the output buffer" % who, cfg=cfg, where=H.line(e))
-        ok, why = c.propagated(e)
-        ctx.oblige(key + "|propagated|" + c.data_desc(e)[:70], ok,
-                   "%s: the Result of appending %s is not propagated (%s): overflow would be a panic or silently shortened data" % (who, c.data_desc(e)[:70], why), cfg=cfg, where=H.line(e))
-    # error exits: only failed appends / delegations / conversions propagated with `?`; an explicit `Err(..)` result moves the
-    # accept/reject frontier by a hand-written test (conservative: a correct pre-check is reported too, DESIGN section 4.1)
-    for s in c.A.sites:
-        if s.wrappers[:1] == ["core::result::Result::Err"]:
-            ctx.oblige(key + "|explicit-error|" + " & ".join(c.A.cond_str(x) for x in s.conds)[:80], False,
-                       "%s fails with a hand-written test (%s) rather than because an append did not fit: inputs that fit exactly may be rejected" % (who, "; ".join(c.A.cond_str(x) for x in s.conds)[:160]),
-                       cfg=cfg, where=H.line(s.node) if s.node else None)
-    return len(seen)
 
 
 def run(ctx):
@@ -70,63 +46,39 @@ def run(ctx):
         # ---------------- AuthenticatorData::serialize
         fn = F.fn(AD)
         if ctx.oblige("C07|ad|anchor", fn is not None, "anchor missing: AuthenticatorData::serialize", cfg=cfg):
-            lets = [s for s in fn["body"].get("stmts", []) if s["k"] == "let" and s["pat"].get("k") == "bind"]
-            out = None
-            for s in lets:
-                i = H.strip_block(s.get("init") or {})
-                if i.get("k") == "call" and (i.get("callee") or "").endswith("::new") and s["pat"]["ty"].startswith("heapless_bytes::Bytes<"):
-                    out = s
-            if ctx.oblige("C07|ad|fresh-buffer", out is not None, "the output is no longer a freshly created Bytes<N>", cfg=cfg, where=fn["sp"]):
+            c = Chain2(F, fn, buf=None)
+            bufs = c.buffers()
+            if ctx.oblige("C07|ad|fresh-buffer", len(bufs) == 1 and not c.error, "the output is no longer one freshly created Bytes<N> (%d candidates)" % len(bufs), cfg=cfg, where=fn["sp"]):
+                buf = next(iter(bufs))
                 cap = spec["authenticator_data"]["capacity"]
-                ctx.oblige("C07|ad|capacity", out["pat"]["ty"] == "heapless_bytes::Bytes<%d>" % cap, "authenticator data buffer is %s, expected capacity %d" % (out["pat"]["ty"], cap), cfg=cfg)
-                try:
-                    c = Chain(fn, out["pat"]["id"])
-                except TooManyPaths:
-                    c = None
-                    ctx.violation("C07|ad|paths", "too many paths", cfg=cfg)
-                if c is not None:
-                    n_sites += chain_common(ctx, cfg, c, "C07|ad", "AuthenticatorData::serialize")
-                    sp = c.success_paths()
-                    ctx.oblige("C07|ad|success-paths", len(sp) == 4, "AuthenticatorData::serialize has %d success paths, expected 4 (attested data x extensions)" % len(sp), cfg=cfg)
-                    for p in sp:
-                        has_acd = has_ext = None
-                        for cd in p.conds:
-                            if cd.kind == "let" and H.pat_ctor(cd.pat) == "core::option::Option::Some":
-                                d = c.A.desc(cd.init)
-                                if "self.attested_credential_data" in d:
-                                    has_acd = cd.pol
-                                elif "self.extensions" in d:
-                                    has_ext = cd.pol
-                        label = "acd=%s,ext=%s" % (has_acd, has_ext)
-                        key = "C07|ad|layout|" + label
-                        want = ["extend_from_slice:param:self.rp_id_hash", "push:ctap2::AuthenticatorDataFlags::bits(param:self.flags)",
-                                "extend_from_slice:core::num::<impl u32>::to_be_bytes(param:self.sign_count)"]
-                        if has_acd:
-                            want.append("call:ctap2::SerializeAttestedCredentialData::serialize(<Some binding of self.attested_credential_data>)")
-                        if has_ext:
-                            want.append("call:cbor_smol::cbor_serialize_to(<Some binding of self.extensions>)")
-                        got = []
-                        for e in p.effects:
-                            m = c.method(e)
-                            if m:
-                                got.append("%s:%s" % (m, c.data_desc(e)))
-                            else:
-                                # delegation: receiver / first argument must be the Some-binding of the right field
-                                args = [a for a in H.call_args(e) if H.local_id(a) != c.buf_id]
-                                src = None
-                                if len(args) == 1:
-                                    lid = H.local_id(args[0])
-                                    for cd in p.conds:
-                                        if cd.kind == "let" and cd.pol and lid in [i for _, i in H.pat_bindings(cd.pat)]:
-                                            d = c.A.desc(cd.init)
-                                            src = "self.attested_credential_data" if "self.attested_credential_data" in d else "self.extensions" if "self.extensions" in d else d
-                                got.append("call:%s(<Some binding of %s>)" % (e.get("callee"), src))
-                        ctx.oblige("C07|ad|flags-known|" + label, has_acd is not None and has_ext is not None, "cannot tell which optional parts are present on this path", cfg=cfg, nontrivial=False)
-                        ctx.oblige(key, got == want, "authenticator data is laid out as %s, WebAuthn requires %s" % (got, want), cfg=cfg, where=fn["sp"])
-                        ctx.sample({"cfg": cfg, "fn": "AuthenticatorData::serialize", "path": label, "appends": got}, limit=16)
-                    # result is the buffer
-                    ok_sites = [s for s in c.A.sites if s.wrappers == ["core::result::Result::Ok"]]
-                    ctx.oblige("C07|ad|returns-buffer", len(ok_sites) == 1 and H.local_id(ok_sites[0].node) == out["pat"]["id"], "the function does not return the buffer it filled", cfg=cfg)
+                bt = c.buffer_type(buf)
+                ctx.oblige("C07|ad|capacity", bt == "heapless_bytes::Bytes<%d>" % cap, "authenticator data buffer is %s, expected capacity %d" % (bt, cap), cfg=cfg)
+                n_sites += c.check_common(ctx, cfg, "C07|ad", "AuthenticatorData::serialize", delegates=(ACD_TRAIT, CBOR_TO))
+                sp = c.success_paths()
+                ctx.oblige("C07|ad|success-paths", len(sp) == 4, "AuthenticatorData::serialize has %d success paths, expected 4 (attested data x extensions)" % len(sp), cfg=cfg)
+                me = ("param", "self")
+                f_acd, f_ext = ("field", me, "attested_credential_data"), ("field", me, "extensions")
+                for p in sp:
+                    has_acd = {S.SOME: True, S.NONE: False}.get(c.sym.lookup(p, f_acd))
+                    has_ext = {S.SOME: True, S.NONE: False}.get(c.sym.lookup(p, f_ext))
+                    label = "acd=%s,ext=%s" % (has_acd, has_ext)
+                    key = "C07|ad|layout|" + label
+                    segs = c.segments(p)
+                    got = [x.show() for x in segs]
+                    ok = len(segs) >= 3 and segs[0].kind == "chunk" and segs[0].term == ("field", me, "rp_id_hash")
+                    ok = ok and segs[1].kind == "byte" and segs[1].term[0] == "call" and segs[1].term[1] == "ctap2::AuthenticatorDataFlags::bits" and segs[1].term[2] == (("field", me, "flags"),)
+                    ok = ok and segs[2].kind == "be" and segs[2].n == 4 and segs[2].term == ("field", me, "sign_count") and segs[2].guard is None
+                    rest = segs[3:]
+                    want_rest = []
+                    if has_acd:
+                        want_rest.append((ACD_TRAIT, (("proj", f_acd, S.SOME, 0),)))
+                    if has_ext:
+                        want_rest.append((CBOR_TO, (("proj", f_ext, S.SOME, 0),)))
+                    ok = ok and [(x.callee, x.term) for x in rest if x.kind == "delegate"] == want_rest and all(x.kind == "delegate" for x in rest)
+                    ctx.oblige("C07|ad|flags-known|" + label, has_acd is not None and has_ext is not None, "cannot tell which optional parts are present on this path", cfg=cfg, nontrivial=False)
+                    ctx.oblige(key, ok, "authenticator data is laid out as %s, WebAuthn requires rpIdHash, flags, signCount(be32)%s%s" % (got, ", attested credential data" if has_acd else "", ", extensions" if has_ext else ""), cfg=cfg, where=fn["sp"])
+                    ctx.oblige("C07|ad|returns-buffer|" + label, p.result == ("ctor", S.OK, (buf,)), "the function does not return the buffer it filled (returns %s)" % S.show(p.result)[:120], cfg=cfg)
+                    ctx.sample({"cfg": cfg, "fn": "AuthenticatorData::serialize", "path": label, "appends": got}, limit=16)
         # field types
         fs = F.struct_fields("ctap2::AuthenticatorData")
         if ctx.oblige("C07|ad|adt", fs is not None, "anchor missing: struct AuthenticatorData", cfg=cfg):
@@ -146,23 +98,35 @@ def run(ctx):
         # ---------------- AttestedCredentialData::serialize
         fn = F.fn(ACD)
         if ctx.oblige("C07|acd|anchor", fn is not None, "anchor missing: AttestedCredentialData::serialize", cfg=cfg):
-            bid = [i for p in fn["params"] for n, i in H.pat_bindings(p) if n != "self"]
-            c = Chain(fn, bid[0])
-            n_sites += chain_common(ctx, cfg, c, "C07|acd", "AttestedCredentialData::serialize")
+            bname = [n for p in fn["params"] for n, i in H.pat_bindings(p) if n != "self"]
+            c = Chain2(F, fn, buf=("param", bname[0]))
+            n_sites += c.check_common(ctx, cfg, "C07|acd", "AttestedCredentialData::serialize", conversions=U16_FROM_USIZE)
             sp = c.success_paths()
             ctx.oblige("C07|acd|success-paths", len(sp) == 1, "AttestedCredentialData::serialize has %d success paths" % len(sp), cfg=cfg)
-            want = ["extend_from_slice:param:self.aaguid",
-                    "extend_from_slice:core::num::<impl u16>::to_be_bytes(try(core::result::Result::<T, E>::map_err(core::convert::TryFrom::try_from(core::slice::<impl [T]>::len(param:self.credential_id)), closure)))",
-                    "extend_from_slice:param:self.credential_id", "extend_from_slice:param:self.credential_public_key"]
+            me = ("param", "self")
             for p in sp:
-                got = ["%s:%s" % (c.method(e) or "call", c.data_desc(e)) for e in p.effects]
-                ctx.oblige("C07|acd|layout", got == want, "attested credential data is laid out as %s, WebAuthn requires %s" % (got, want), cfg=cfg, where=fn["sp"])
+                segs = c.segments(p)
+                got = [x.show() for x in segs]
+                ok = len(segs) == 4 and segs[0].kind == "chunk" and segs[0].term == ("field", me, "aaguid")
+                ok = ok and segs[2].kind == "chunk" and segs[2].term == ("field", me, "credential_id") and segs[3].kind == "chunk" and segs[3].term == ("field", me, "credential_public_key")
+                ctx.oblige("C07|acd|layout", ok, "attested credential data is laid out as %s, WebAuthn requires aaguid, credentialIdLength(be16), credentialId, credentialPublicKey" % got, cfg=cfg, where=fn["sp"])
+                # the length: 2 big-endian bytes of len(self.credential_id), converted with a *checked* conversion
+                # (u16::try_from, or hand-made bytes under an explicit `<= 0xFFFF` test) -- never an `as` narrowing
+                l_ok, why = False, "the second segment is not a 2-byte big-endian integer"
+                if len(segs) == 4 and segs[1].kind == "be" and segs[1].n == 2:
+                    t = segs[1].term
+                    def is_len(x):
+                        return x[0] == "call" and method_of(x[1]) == "len" and len(x[2]) == 1 and cnorm(x[2][0]) == ("field", me, "credential_id")
+                    if t[0] == "proj" and t[2] == S.OK and t[1][0] == "call" and t[1][1] in U16_FROM_USIZE and is_len(t[1][2][0]):
+                        l_ok = True
+                    elif is_len(t) and segs[1].guard is not None:
+                        l_ok = True     # the guard itself is checked by the be-guard clause of check_common
+                    elif t[0] == "cast":
+                        why = "the length is narrowed with `as %s`: a 65536-byte id would wrap" % t[2]
+                    else:
+                        why = "the length prefix is %s, not the checked 16-bit length of self.credential_id" % S.show(t)
+                ctx.oblige("C07|acd|checked-length", l_ok, why, cfg=cfg, where=fn["sp"])
                 ctx.sample({"cfg": cfg, "fn": "AttestedCredentialData::serialize", "appends": got}, limit=16)
-            # the length conversion is the checked u16::try_from(usize), no `as` narrowing anywhere
-            casts = [x for x in H.walk(fn["body"]) if x.get("k") == "cast"]
-            ctx.oblige("C07|acd|no-narrowing-cast", not casts, "a length is narrowed with `as` (%s): a 65536-byte id would wrap" % [x.get("ty") for x in casts], cfg=cfg)
-            conv = [x for x in H.walk(fn["body"]) if x.get("callee") == "core::convert::TryFrom::try_from"]
-            ctx.oblige("C07|acd|checked-length", len(conv) == 1 and (conv[0].get("targs") or [])[:2] == ["u16", "usize"], "credential id length is not converted with u16::try_from(usize)", cfg=cfg)
         fs = F.struct_fields("ctap2::make_credential::AttestedCredentialData")
         if fs:
             ft = {f["name"]: f["ty"]["s"] for f in fs}
@@ -171,11 +135,10 @@ def run(ctx):
         # ---------------- NoAttestedCredentialData
         fn = F.fn(NOACD)
         if ctx.oblige("C07|noacd|anchor", fn is not None, "anchor missing: NoAttestedCredentialData::serialize", cfg=cfg):
-            bid = [i for p in fn["params"] for n, i in H.pat_bindings(p) if n != "self"]
-            c = Chain(fn, bid[0])
+            bname = [n for p in fn["params"] for n, i in H.pat_bindings(p) if n != "self"]
+            c = Chain2(F, fn, buf=("param", bname[0]))
             eff = [e for p in c.paths for e in p.effects]
-            oks = [s for s in c.A.sites if s.wrappers == ["core::result::Result::Ok"]]
-            ctx.oblige("C07|noacd|appends-nothing", not eff and len(oks) == len(c.A.sites) == 1 and not c.A.tries, "the GetAssertion flavour appends attested credential data", cfg=cfg)
+            ctx.oblige("C07|noacd|appends-nothing", not c.error and not eff and len(c.paths) == 1 and c.outcome(c.paths[0]) == "ok", "the GetAssertion flavour appends attested credential data or can fail", cfg=cfg)
         # the two flavours are wired to the right delegates
         for alias, a_ty, e_ty in (("ctap2::make_credential::AuthenticatorData", "ctap2::make_credential::AttestedCredentialData", "ctap2::make_credential::Extensions"),
                                   ("ctap2::get_assertion::AuthenticatorData", "ctap2::get_assertion::NoAttestedCredentialData", "ctap2::get_assertion::ExtensionsOutput")):
